@@ -387,6 +387,19 @@ def version_travels_with_platform(ctx: Ctx, rep: Report, rid: str = "R09.16") ->
                 rep.ok(f"{g.qualname}: {snippet(c, 40)}", "platform and version are handed over together", nontrivial=False, where=where(g, c))
             else:
                 rep.violation(g.qualname, snippet(c, 60), f"the {c.func.id} is built for the caller's platform but with the default software version: names are chosen from the table of another version than the one asked for, and the reader for that version refuses them (`eq msrpc` for ios 15)", where(g, c), inp="range_ports(dstports='135', platform='ios', version='15')")
+        # a parameter record that is handed on to a helper (`params = {"line": ..., "platform": ..., ...}` ... `f(**params)`):
+        # where it carries the platform it carries the version
+        for d in [x for x in own_nodes(g.node) if isinstance(x, ast.Dict) or (isinstance(x, ast.Call) and isinstance(x.func, ast.Name) and x.func.id == "dict" and not x.args)]:
+            keys = {k.value for k in d.keys if isinstance(k, ast.Constant)} if isinstance(d, ast.Dict) else {k.arg for k in d.keywords if k.arg}
+            if "platform" not in keys:
+                continue
+            n += 1
+            rep.instance()
+            spread_own = kwname is not None and ((isinstance(d, ast.Dict) and any(k is None and src(v) == kwname for k, v in zip(d.keys, d.values))) or (isinstance(d, ast.Call) and any(k.arg is None and src(k.value) == kwname for k in d.keywords)))
+            if "version" in keys or spread_own:
+                rep.ok(f"{g.qualname}: {snippet(d, 40)}", "the record carries platform and version together", nontrivial=False, where=where(g, d))
+            else:
+                rep.violation(g.qualname, snippet(d, 60), "the parameter record carries the caller's platform but not the software version: what is built from it renders names from the default version's table, which the reader for the version asked for refuses (`eq msrpc` for ios 15)", where(g, d), inp="range_ports(dstports='135', platform='ios', version='15')")
     if n == 0:
         rep.note(f"{rid} no construction with platform= in the module functions - not judged")
 
